@@ -1,0 +1,34 @@
+//go:build verif
+
+package slogutil
+
+// Contracts for the deductive verifier in /verif (govc); comments only.
+
+/*@
+// JSONHybridHandler (property C19), sequential parts.
+func (*JSONHybridHandler).Enabled
+  requires h != nil && h.level != nil
+  ensures at_least_configured: calls("log/slog.Leveler.Level") == 1 && callarg("log/slog.Leveler.Level", 0) == h.level &&
+    (ok <==> level >= callres("log/slog.Leveler.Level", 0))
+
+// "ERROR" for levels at or above slog.LevelError (8), "NORMAL" otherwise; the
+// message bytes are passed on as they are.
+func newJSONHybridMessage
+  ensures fresh_message: m != nil && fresh(m)
+  ensures severity: m.Severity == (lvl >= 8 ? "ERROR" : "NORMAL")
+  ensures message_kept: m.Message == msg
+
+// A derived handler shares the level, the encoder, the pool and the mutex
+// and carries the parent's attributes followed by the new ones; nothing
+// that existed before the call is written (in particular not the parent's
+// attribute slice, which siblings share).
+func (*JSONHybridHandler).WithAttrs
+  requires h != nil
+  modifies nothing
+  ensures derived: typeis(res, "*JSONHybridHandler") && fresh(as(res, "*JSONHybridHandler")) &&
+    as(res, "*JSONHybridHandler").level == h.level && as(res, "*JSONHybridHandler").encoder == h.encoder &&
+    as(res, "*JSONHybridHandler").bufTextPool == h.bufTextPool && as(res, "*JSONHybridHandler").mu == h.mu
+  ensures attrs_appended: len(as(res, "*JSONHybridHandler").textAttrs) == len(h.textAttrs) + len(attrs)
+  ensures parent_unchanged: h.textAttrs == old(h.textAttrs)
+
+@*/
